@@ -9,7 +9,7 @@ use vh::*;
 
 fn main() {
     let args = Args::parse("C03");
-    let n = args.budget(500, 20000);
+    let n = args.budget(500, 60000);
     let ev = run_sharded(&args, n, |case, ev, log| {
         if case % 4 == 3 {
             spline_case::<f32>("C03", &["value", "bc"], case, &args, ev, log)
